@@ -412,11 +412,11 @@ def prepare_case04(d: dict, org: str, model_ok: bool) -> Dict[str, Any]:
     res.pop("_objs", None)
     heap, r, anom = c04.input_heap(d)
     m = {"descr": d, "origin": org, "ft": ft, "res": res, "anomalies": anom, "heap": heap, "root": r, "expr": None,
-         "in_f": not ft["alt_objs"] and not ft["altbase_objs"], "alts": c04.alts_term(), "root_class": d["objs"][d["root"]]["c"]}
+         "in_f": False, "alts": c04.alts_ab(), "root_class": d["objs"][d["root"]]["c"]}
     if "exc" not in res:
         args = f"{c04.heap_term(heap)} {r}%nat {c04.heap_term(res['heap'])} {res['root']}%nat"
         fn = c04.code_fns(d, model_ok)[0]
-        m["expr"] = f"{fn} {c04.alts_term()} {args}" if model_ok else f"{fn} {args}"
+        m["expr"] = f"{fn} {c04.alts_ab()} {args}" if model_ok else f"{fn} {args}"
     return m
 
 
@@ -525,7 +525,7 @@ def prepare_case(d: dict, org: str, sc, model_ok: bool) -> Dict[str, Any]:
         counts = core.sx([[res["table_counts"][t] for t in tables], [res["assoc_counts"][t] for t in tags]])
         a_in = f"{c04.heap_term(heap5(heap))} {r}%nat"
         a_out = f"{c04.heap_term(heap5(res['heap']))} {res['root']}%nat"
-        m["expr"] = (f"case_code5 {schema_term(sc)} {c04.alts_term()} {zl(tables)} {zl(tags)} {a_in} {a_out} ({counts})" if model_ok
+        m["expr"] = (f"case_code5 {schema_term(sc)} {c04.alts_ab()} {zl(tables)} {zl(tags)} {a_in} {a_out} ({counts})" if model_ok
                      else f"case_code_spec {a_in} {a_out}")
         m["table_counts_nz"] = {str(k): v for k, v in res["table_counts"].items() if v}
     return m
@@ -623,7 +623,7 @@ def run(tier: str, seed: int, replay=None) -> int:
         "lazy loading) and SQLite; type coercion of Float/String/JSON/Enum/DateTime/custom TypeDecorator columns",
         "hand-written models Orm/ObjGraphWalk.v (to_dao/from_dao) and Orm/Rows.v (schema, flush, load); the schema parameter "
         "(parent tables, own data columns, relationship order, ONETOMANY single references) is read from the real mappers on every run",
-        "source pins pins/ormrt.json (38 methods of dao.py, alternative_mappings.py, custom_types.py, wrapped_table.py, utils.create_engine that the hand "
+        "source pins pins/ormrt.json (41 methods of dao.py, alternative_mappings.py, custom_types.py, wrapped_table.py, utils.create_engine that the hand "
         "models mirror; a changed method reopens the correspondence obligation)",
         "harness/c04.py (class table, builder, heap dump, scalar interning with numbers by value, python bisimulation) and harness/c05.py "
         "(incl. the generator of class models)",
